@@ -41,6 +41,10 @@ def step (_ : Unit) (line : String) : Unit × String :=
     | some f => ((), if f ∈ derived then "derived" else if f ∈ free then "free" else "unclassified")
     | none => ((), "unclassified")
   | ["field", "EmptyBlockHeader", name] => ((), if name ∈ emptyFields then "derived" else "unclassified")
+  -- a header with both variants is not the encoding of any valid block: the validator judges it by the part it hashes
+  -- and must refuse when that part is inconsistent with the other; the model's blocks have exactly one variant
+  | ["tamper", "proposed", "EmptyBlockHeader", _] => ((), "rej")
+  | ["tamper", "empty", "ProposedHeader", _] => ((), "rej")
   | ["tamper", "proposed", name, op] =>
     match fieldOf name with
     | none => ((), "bad-op")
